@@ -343,10 +343,62 @@ func isSignedInt(t types.Type) bool {
 }
 
 // DFloor examines every site in fn.
-func (x *Extractor) DFloor(fn *ssa.Function) []floorSite {
-	fc := x.FCFor(fn)
+func (x *Extractor) DFloor(fn *ssa.Function) []floorSite { return x.dfloorFC(x.FCFor(fn), nil) }
+
+// DFloorInContexts: the sites of a private helper decided in each of its
+// calling contexts (parameters bound to the caller's arguments, the caller's
+// branch facts at the call added); a site holds when it holds in every context.
+func (x *Extractor) DFloorInContexts(fn *ssa.Function, callers []*ssa.Function) []floorSite {
+	var merged []floorSite
+	idx := map[string]int{}
+	n := 0
+	for _, g := range callers {
+		gfc := x.FCFor(g)
+		gfc.Ctx.Instrs(func(in ssa.Instruction) {
+			c, ok := in.(*ssa.Call)
+			if !ok || c.Common().StaticCallee() != fn || len(c.Common().Args) != len(fn.Params) {
+				return
+			}
+			n++
+			bind := map[*ssa.Parameter]*RF{}
+			args := make([]*RF, len(fn.Params))
+			for i, p := range fn.Params {
+				args[i] = gfc.Val(c.Common().Args[i])
+				bind[p] = args[i]
+			}
+			sub := x.newFC(fn, bind, nil)
+			sub.bindArgs = args
+			for _, st := range x.dfloorFC(sub, gfc.SignerAt(c).facts) {
+				key := st.Where + "|" + st.Kind
+				if i, seen := idx[key]; seen {
+					if !st.OK && merged[i].OK {
+						merged[i] = st
+					}
+					continue
+				}
+				idx[key] = len(merged)
+				st.Why += " (in the context of its call from " + x.W.FuncName(g) + ")"
+				merged = append(merged, st)
+			}
+		})
+	}
+	if n == 0 {
+		return x.DFloor(fn)
+	}
+	return merged
+}
+
+func (x *Extractor) dfloorFC(fc *FC, extra []*RF) []floorSite {
+	fn := fc.Fn
 	name := x.W.FuncName(fn)
 	var out []floorSite
+	signerAt := func(in ssa.Instruction) *Signer {
+		g := fc.SignerAt(in)
+		for _, f := range extra {
+			g.addFact(f)
+		}
+		return g
+	}
 	fc.Ctx.Instrs(func(in ssa.Instruction) {
 		switch v := in.(type) {
 		case *ssa.Convert:
@@ -359,7 +411,7 @@ func (x *Extractor) DFloor(fn *ssa.Function) []floorSite {
 			site := floorSite{Fn: name, Where: x.W.InstrPos(v), Kind: "float→int"}
 			arg := fc.Val(v.X)
 			site.Expr = clip(arg.String(), 160)
-			g := fc.SignerAt(v)
+			g := signerAt(v)
 			switch {
 			case x.S.Integral(arg):
 				site.OK, site.Why = true, "operand is integral (floor/ceil/modf/int arithmetic)"
@@ -379,7 +431,7 @@ func (x *Extractor) DFloor(fn *ssa.Function) []floorSite {
 			site := floorSite{Fn: name, Where: x.W.InstrPos(v), Kind: "int " + v.Op.String()}
 			l, r := fc.Val(v.X), fc.Val(v.Y)
 			site.Expr = clip(l.String()+" "+v.Op.String()+" "+r.String(), 200)
-			g := fc.SignerAt(v)
+			g := signerAt(v)
 			switch {
 			case g.NonNeg(l) && (v.Op == token.REM || g.NonNeg(r)):
 				site.OK, site.Why = true, "operands non-negative"+usedStr(g)
@@ -486,6 +538,9 @@ func (b *B) CheckDFloor(rule string, fnNames ...string) int {
 			name = b.A.W.FuncName(fn)
 		}
 		sites := b.X.DFloor(fn)
+		if named[fn] == "" && fn.Parent() == nil {
+			sites = b.X.DFloorInContexts(fn, group) // a private helper: decided in its calling contexts
+		}
 		per := map[string]int{}
 		for _, s := range sites {
 			per[s.Kind]++
